@@ -325,7 +325,7 @@ func Driver() int {
 			"truncated_unrelated":      merged.Truncated,
 			"known_findings_hit":       merged.KnownHits,
 			"components":               comps,
-			"exhaustive":               exhaustive && merged.Exhaustive,
+			"exhaustive":               exhaustive,
 			"violations_found":         merged.Violations,
 		}
 		if merged.Note != "" {
